@@ -258,7 +258,7 @@ supla_esp_gpio_rs_set_relay(supla_roller_shutter_cfg_t *rs_cfg, uint8 value,
 
   if (value == RS_RELAY_OFF) {
     if (RS_STOP_DELAY && stop_delay == 1 && rs_cfg->start_time > 0 &&
-        rs_cfg->stop_time == 0 && t >= rs_cfg->start_time &&
+        rs_cfg->stop_time == 0 &&
         (t - rs_cfg->start_time) / 1000 < RS_STOP_DELAY) {
       delay_time = RS_STOP_DELAY - (t - rs_cfg->start_time) / 1000 + 1;
     }
@@ -281,7 +281,6 @@ supla_esp_gpio_rs_set_relay(supla_roller_shutter_cfg_t *rs_cfg, uint8 value,
     }
 
     if (RS_START_DELAY && rs_cfg->start_time == 0 && rs_cfg->stop_time > 0 &&
-        t >= rs_cfg->stop_time &&
         (t - rs_cfg->stop_time) / 1000 < RS_START_DELAY) {
       delay_time = RS_START_DELAY - (t - rs_cfg->stop_time) / 1000 + 1;
     }
